@@ -1,6 +1,7 @@
 /-
   C19 — Third-party frames survive only for allow-listed services, with the right id.
 -/
+import Distill.Props.RenderProps
 import Distill.Model.Embed
 import Distill.Gen.Tables
 namespace Distill.C19
